@@ -22,7 +22,9 @@ func (c *Bool) SetValue(value bool) {
 
 // GetValue returns the value as bool
 func (c *Bool) GetValue() bool {
-	return c.Characteristic.GetValue().(bool)
+	// nil (write-only, or no value set yet) reads as the zero value
+	v, _ := c.Characteristic.GetValue().(bool)
+	return v
 }
 
 // OnValueRemoteGet calls fn when the value was read by a client.
